@@ -1,0 +1,45 @@
+//! Differential-driver access to crate-private items (group: objects). See /verif/DESIGN.md.
+#![allow(missing_docs, missing_debug_implementations, unreachable_pub)]
+
+pub use crate::scheduler::verif_api::*;
+
+/// `TxDependency` with the committed cursor it reads in `key_tx`.
+pub struct TxDependencyV {
+    dep: crate::tx_dependency::TxDependency,
+    committed: std::sync::atomic::AtomicUsize,
+}
+
+impl TxDependencyV {
+    pub fn new(num_txs: usize) -> Self {
+        Self {
+            dep: crate::tx_dependency::TxDependency::new(num_txs),
+            committed: std::sync::atomic::AtomicUsize::new(0),
+        }
+    }
+    pub fn next(&self) -> Option<usize> {
+        self.dep.next()
+    }
+    pub fn index(&self) -> usize {
+        self.dep.index()
+    }
+    pub fn remove(&self, txid: usize, pop_next: bool) -> Option<usize> {
+        self.dep.remove(txid, pop_next)
+    }
+    /// Publish the committed boundary `txid + 1`, then run `commit(txid)` (the commit loop's order).
+    pub fn publish_commit(&self, index: usize) {
+        self.committed.store(index, std::sync::atomic::Ordering::Release);
+        crate::verif::p1("commit_publish", index as i64);
+    }
+    pub fn commit(&self, txid: usize) {
+        self.dep.commit(txid)
+    }
+    pub fn key_tx(&self, txid: usize) {
+        self.dep.key_tx(txid, crate::scheduler::verif_api::cursor_reader(&self.committed))
+    }
+    pub fn add(&self, txid: usize, dep_id: Option<usize>) {
+        self.dep.add(txid, dep_id)
+    }
+    pub fn snapshot(&self) -> (Vec<(bool, Option<usize>)>, Vec<Vec<usize>>, usize) {
+        self.dep.verif_snapshot()
+    }
+}
